@@ -690,8 +690,26 @@ class Rewriter:
         self.note('while-let->loop-match', n)
         return code
 
+    # ---- R8: local `const NAME: &[&str] = &[...]` -> `let NAME: Vec<&'static str> = vec![...]`
+    def local_const_slices(self, code):
+        n = 0
+        while True:
+            m = mask(code)
+            mm = re.search(r'(?<![A-Za-z0-9_])const\s+([A-Z_][A-Z0-9_]*)\s*:\s*&\s*\[\s*&\s*str\s*\]\s*=\s*&\s*\[', m)
+            if not mm:
+                break
+            ob = mm.end() - 1
+            cb = match_close(m, ob)
+            semi = m.index(';', cb)
+            rep = "let %s: Vec<&'static str> = vec![%s];" % (mm.group(1), code[ob + 1:cb])
+            code = code[:mm.start()] + rep + code[semi + 1:]
+            n += 1
+        self.note('local-const-str-slice->let-vec', n)
+        return code
+
     def apply_all(self, code, opts):
         code = self.closure_underscore(code)
+        code = self.local_const_slices(code)
         if not opts.get('no_while_let'):
             code = self.while_let(code)
         if not opts.get('no_str_match'):
